@@ -5,6 +5,8 @@ every update return (dt used, hash of every returned array, probe readouts) and 
 save; vt/ref/runspec.py computes from the dt sequence alone which frames must exist
 and what each must contain; vt/runcheck.py compares the HDF5 file (h5py) and the
 loaded Solution with that."""
+import os
+
 import numpy as np
 
 from .. import runcheck, sim, simmon, zoo
@@ -66,6 +68,17 @@ def _case(rng, N, k, mode, therm, probes, screening):
             "screening": screening, "cost": 3 + 10 * screening}
 
 
+def _seeded(rng, j):
+    """A run started from the final state of an earlier run (one Solution object used as the seed of TWO continuations, the second
+    one monitored): frame 0 (step 0, time 0) holds the state the seed's FILE holds - after zero updates of this run."""
+    N = int(rng.integers(3, 10)); k = int([1, 2, N + 1, 3][j % 4])
+    c_ = _case(rng, N, k, ["fixed", "adaptive"][j % 2], False, int([2, 0][j % 2]), bool(j % 4 != 3))
+    c_["options"]["output"] = "file"
+    c_["seeded_twice"] = True
+    c_["cost"] = 3 * c_["cost"]
+    return c_
+
+
 def gen_cases(tier, seed):
     rng = np.random.default_rng(5_000 + seed)
     cases = []
@@ -107,7 +120,11 @@ def gen_cases(tier, seed):
             c_ = _case(rng, N, k, ["fixed", "adaptive"][j % 2], bool(j % 4 == 3), int([0, 2][j % 2]), False)
             c_["options"].update(output="file", monitor=True, monitor_update_interval=1e-9)
             cases.append(c_)
+        for j in range(4):
+            cases.append(_seeded(rng, j))
     else:
+        for j in range(16):
+            cases.append(_seeded(rng, j))
         for j in range(30):
             N = int(rng.integers(6, 13)); k = int([1, 3, N + 1, 2][j % 4])
             c_ = _case(rng, N, k, "adaptive", bool(j % 2), int([2, 0, 3, 2][j % 4]), True)
@@ -171,10 +188,49 @@ def run_case(spec):
         r0 = sim.run_sim(other, [], workdir=workdir, keep_dir=True)
         if r0.refused:
             return {"violations": [], "counters": {"refused_mesh": 1}, "classes": ["refused"], "nontrivial": False}
-    rr = sim.run_sim(spec, [tm, simmon.Sanitizer()], workdir=workdir, failpoints=refuser)
+    seed_sol = seed_frame = None
+    seed_dirs = []
+    V0 = []
+    if spec.get("seeded_twice"):
+        import tempfile
+
+        ra = sim.run_sim(spec, [], keep_dir=True)
+        if ra.refused:
+            return {"violations": [], "counters": {"refused_mesh": 1}, "classes": ["refused"], "nontrivial": False}
+        seed_dirs.append(ra.outdir)
+        if ra.exception is not None or ra.solution is None:
+            import shutil
+
+            shutil.rmtree(ra.outdir, ignore_errors=True)
+            return {"violations": [], "counters": {"seed_run_failed": 1}, "classes": ["seed_run_failed"], "nontrivial": False, "sample": {"exception": repr(ra.exception)[:160]}}
+        seed_sol = ra.solution
+        seed_frame = runcheck.read_frames(seed_sol.path)[0][-1]  # what the file holds under the seed's final step
+        r1 = sim.run_sim(spec, [], device=ra.device, seed_solution=seed_sol, keep_dir=True)  # first continuation (not monitored)
+        seed_dirs.append(r1.outdir)
+        for m_ in getattr(r1, "mutated", None) or []:
+            V0.append({"kind": "solve_changes_callers_inputs", "mechanism": "solve_changes_callers_inputs", "detail": m_})
+    rr = sim.run_sim(spec, [tm, simmon.Sanitizer()], workdir=workdir, failpoints=refuser, **({"device": ra.device, "seed_solution": seed_sol} if seed_sol is not None else {}))
     if rr.refused:
         return {"violations": [], "counters": {"refused_mesh": 1}, "classes": ["refused"], "nontrivial": False}
-    V, C = [], {}
+    V, C = list(V0), {}
+    if seed_sol is not None:
+        import shutil
+
+        C["seeded_continuations"] = 1
+        for m_ in getattr(rr, "mutated", None) or []:
+            V.append({"kind": "solve_changes_callers_inputs", "mechanism": "solve_changes_callers_inputs", "detail": m_})
+        p0 = getattr(rr.solution, "path", None)
+        if p0 is not None and os.path.exists(p0):
+            f0 = runcheck.read_frames(p0)[0][0]
+            names = ["psi", "mu", "supercurrent", "normal_current"] + (["induced_vector_potential"] if spec["screening"] else [])
+            bad = [n_ for n_ in names if f0["hashes"].get(n_) != seed_frame["hashes"].get(n_)]
+            C["seeded_frame0_checks"] = len(names)
+            if bad or int(f0["attrs"].get("step", -1)) != 0 or float(f0["attrs"].get("time", -1.0)) != 0.0:
+                V.append({"kind": "frame0_of_seeded_run_ne_seed_state", "mechanism": "seeded_frame0_not_seed_state",
+                          "detail": {"datasets": bad, "label": [int(f0["attrs"].get("step", -1)), float(f0["attrs"].get("time", -1.0))],
+                                     "max_abs_diff": {n_: float(np.max(np.abs(f0["arrays"][n_] - seed_frame["arrays"][n_]))) for n_ in bad if n_ in f0["arrays"] and f0["arrays"][n_].shape == seed_frame["arrays"][n_].shape}}})
+        for d_ in seed_dirs:
+            shutil.rmtree(d_, ignore_errors=True)
     if refuser is not None:
         C["refusals_injected_in_later_screening_iterations"] = refuser.injected
     o = rr.options
@@ -201,7 +257,6 @@ def run_case(spec):
     sol = rr.solution
     if sol is not None:
         path = sol.path
-    import os
 
     N_obs = None
     if (path is None or not os.path.exists(path)) and tm.snapshot is not None:
